@@ -17,6 +17,7 @@ const MAX_INBOUND_QOS2: usize = 8;
 #[derive(Debug)]
 pub(super) struct RuntimeState {
     pub(super) session_resumed: bool,
+    pub(super) configured_keepalive: Duration,
     pub(super) keepalive_interval: Duration,
     pub(super) send_quota: u16,
     pub(super) max_send_quota: u16,
@@ -30,6 +31,7 @@ impl RuntimeState {
     pub(super) fn new(keepalive_interval: Duration) -> Self {
         Self {
             session_resumed: false,
+            configured_keepalive: keepalive_interval,
             keepalive_interval,
             send_quota: u16::MAX,
             max_send_quota: u16::MAX,
